@@ -95,6 +95,11 @@ class Creators:
       if isinstance(gfa_line, str):
         gfa_line = gfapy.Line(gfa_line, vlevel=self._vlevel,
             dialect=self._dialect)
+      if gfa_line.VN and self._vlevel > 0 and \
+          gfa_line.VN not in ["1.0", "2.0"]:
+        # refuse the line before anything is changed
+        raise gfapy.VersionError(
+            "GFA specification version {} not supported".format(gfa_line.VN))
       self.header._merge(gfa_line)
       if gfa_line.VN:
         if gfa_line.VN == "1.0":
